@@ -512,3 +512,18 @@ Definition catalog_paths_nonempty : bool :=
 
 Lemma catalog_paths_nonempty_true : catalog_paths_nonempty = true.
 Proof. vm_compute. reflexivity. Qed.
+
+(* the translations a path could not reach are rewritten in the localization only: the action / router is what the
+   transform made of it *)
+Lemma rewrite_path_snd : forall tx loc o p, snd (rewrite_path tx loc o p) = snd (rewrite_templates tx loc o p).
+Proof. intros tx loc o p. unfold rewrite_path. destruct (rewrite_templates tx loc o p) as [loc1 o1]. reflexivity. Qed.
+
+(* every catalogue path has a dot (rewriteOrphanTranslations slices the path at its last dot) *)
+Definition catalog_paths_dotted : bool :=
+  forallb (fun row : string * list string =>
+             forallb (fun p => match split_last_dot (trim_suffix star_suffix (s p)) with Some _ => true | None => false end)
+                     (snd row))
+          (catalog_actions ++ catalog_routers).
+
+Lemma catalog_paths_dotted_true : catalog_paths_dotted = true.
+Proof. vm_compute. reflexivity. Qed.
